@@ -31,6 +31,8 @@ def run(ctx, rep):
     rep.rule("R10.4", "the arithmetic of add/decref is consistent (removed <=> outstanding - returned <= 0) and runs under the lock")
     rep.rule("R10.5", "closing releases everything the connection held")
     rep.rule("R10.6", "exports are counted and proxies are cached weakly (constructor table of the connection state)")
+    rep.rule("R10.7", "every reference the peer lent in a message is materialised as a proxy (whose death returns it): replies and "
+                      "exceptions are unboxed on every path, request arguments before anything else of the request can fail")
     rep.assume("races between a release notice and a reference in flight, GC timing and weakref callback order are not decided")
 
     # ------------------------------------------------------------------ R10.1
@@ -251,3 +253,34 @@ def run(ctx, rep):
 
     K.share(ctx, rep, "c08", lambda o: o.rule == "R08.3" and "_seq_request_callback" in o.key, "R10.5", floor=3)
     K.connection_state(ctx, rep, "R10.6", ["_local_objects", "_proxy_cache"])
+
+    # ------------------------------------------------------------------ R10.7
+    dm = K.dispatch_model(ctx)
+    gdm = dm.g
+    rep.analysed(dm.f, gdm)
+    for kind, fn_name in (("MSG_REPLY", "self._unbox"), ("MSG_EXCEPTION", "self._unbox_exc")):
+        ok_e = dm.edge_ok(kind)
+        un = {n.id for n in dm.nodes(kind) if n.ast is not None and n.kind in ("stmt", "test") and (
+            A.find_calls(n.ast, fn_name) or A.find_calls(n.ast, "self._unbox"))}
+        p = Q.find_path_ef([gdm.entry], lambda x: x is gdm.exit, lambda a, b, l: ok_e(a, b, l) and b.id not in un)
+        rep.ob("R10.7", "_dispatch: the payload of a %s is unboxed on every path" % kind, bool(un) and p is None,
+               "every path of that message kind passes %s(...)" % fn_name if un and p is None else
+               "a %s can be dropped without unboxing its payload: a by-reference result the owner has already counted never "
+               "becomes a proxy, so no release notice is ever sent and the object stays exported until the connection closes"
+               % kind, dm.f.loc, witness=ctx.path(p) if p else None)
+    fdr = ctx.func(K.CONN + "._dispatch_request")
+    gdr = ctx.cfg(fdr)
+    rep.analysed(fdr, gdr)
+    unb = [n for n in gdr.live if n.ast is not None and n.kind in ("stmt", "test") and A.find_calls(n.ast, "self._unbox")]
+    look = [n for n in gdr.live if n.ast is not None and n.kind in ("stmt", "test") and any(
+        isinstance(x, ast.Subscript) and K.self_attr(x.value) and not isinstance(x.ctx, ast.Store) for x in A.walk(n.ast))
+        and not any(K.self_attr(x.value, "_config") for x in A.walk(n.ast) if isinstance(x, ast.Subscript))]
+    rep.floor("R10.7", "argument unboxing sites in _dispatch_request", len(unb), 1)
+    rep.floor("R10.7", "dispatch-table lookups in _dispatch_request", len(look), 1)
+    domr = Q.dominators(gdr)
+    okd = bool(unb) and all(any(u.id in domr[l_.id] and u is not l_ for u in unb) for l_ in look)
+    rep.ob("R10.7", "_dispatch_request: the arguments are unboxed before the handler is looked up", okd,
+           "self._unbox(args) is a statement of its own that dominates the table lookup" if okd else
+           "the handler table is consulted before (or in the same expression as, hence before) the arguments are unboxed: a request "
+           "with an unknown handler id fails first and the objects lent in its arguments never get a proxy - they leak at the sender",
+           ctx.loc(look[0]) if look else fdr.loc)
